@@ -166,11 +166,22 @@ class SymStr(str):
         return self._decide(Cat((Rep(ANY_ALL, 0, None), _lit_ast(sub), Rep(ANY_ALL, 0, None))), f"contains {sub!r}")
 
     def startswith(self, p, *a):
+        if not a and type(p) is tuple and p and all(type(x) is str for x in p):
+            # str.startswith(tuple): any of the prefixes
+            for x in p:
+                if self.startswith(x):
+                    return True
+            return False
         if a or not isinstance(p, str) or isinstance(p, SymStr):
             raise Unsupported("startswith form")
         return self._decide(Cat((_lit_ast(p), Rep(ANY_ALL, 0, None))), f"startswith {p!r}")
 
     def endswith(self, p, *a):
+        if not a and type(p) is tuple and p and all(type(x) is str for x in p):
+            for x in p:
+                if self.endswith(x):
+                    return True
+            return False
         if a or not isinstance(p, str) or isinstance(p, SymStr):
             raise Unsupported("endswith form")
         return self._decide(Cat((Rep(ANY_ALL, 0, None), _lit_ast(p))), f"endswith {p!r}")
